@@ -210,10 +210,10 @@ def run(rep, tier, seed, replay=None):
             rep.oracle_failures.append((f"path-broken:{line.split(' ')[1]}:{line.split(' ')[2]}", f"{out[:160]} {apanics.get(cid, '')}"[:300], line, out[:300]))
     def differ(a, b):
         """what differs between two observations: destination ports, request bytes, or only the result"""
-        if [p for p, _ in a[1]] != [p for p, _ in b[1]]:
-            return "port"
-        if a[1] != b[1]:
+        if [d for _, d in a[1]] != [d for _, d in b[1]]:
             return "bytes"
+        if a[1] != b[1]:
+            return "port"   # the same requests, sent elsewhere
         return "result"
 
     for g in groups + any_groups:
